@@ -12,7 +12,7 @@ const SPEC: Spec = Spec {
         "refint binary shift-subtract division is trusted; cross-checked against Python int on a transcript slice and self-checked by a = q*b + r on every pair",
         "x86_64 / 64-bit digits only (div_half path not built here)",
     ],
-    bounds_quick: "D1 Dense(S8,4)xDense(S8,3) (all APIs, 4 sign pairs); D2 every shift 0..63, one or two low digits, dividends Dense(S5,4); D3 Runs(S8,2,12)xRuns(S8,2,6); D4 constructed q*v+r for v in Dense(S8,3) normalised, q in Dense(S8,2), r in {0,1,v-1}, digit shifts 0..2; D5 zero divisor x pool; D6 scalar forms; D7 dense LCG digits, lengths <= 24 / <= 12, 3 x 10 members; D8 (Dense(S5,3)+lengths 3..12) x (Dense(S5,2)+lengths 3..8) through /= %= and the owning forms on operands with spare buffer capacity; D9 long operands: 300/100, 1100/3, 1100/1, 1100/1050, 1030/515, 200/199 digits x 3x3 shapes; D10 Dense(S16,3) x Dense(S16,2) (16-letter half-digit alphabet)",
+    bounds_quick: "D1 Dense(S8,4)xDense(S8,3) (all APIs, 4 sign pairs); D2 every shift 0..63, one or two low digits, dividends Dense(S5,4); D3 Runs(S8,2,12)xRuns(S8,2,6); D4 constructed q*v+r for v in Dense(S8,3) normalised, q in Dense(S8,2), r in {0,1,v-1}, digit shifts 0..2; D5 zero divisor x pool; D6 scalar forms; D7 dense LCG digits, lengths <= 24 / <= 12, 3 x 10 members; D8 (Dense(S5,3)+lengths 3..12) x (Dense(S5,2)+lengths 3..8) through /= %= and the owning forms on operands with spare buffer capacity; D9 long operands: 300/100, 1100/3, 1100/1, 1100/1050, 1030/515, 200/199 digits x 3x3 shapes; D10 Dense(S16,3) x Dense(S16,2) (16-letter half-digit alphabet); D6b Dense(S5,3) x every 2^k-1, 2^k, 2^k+1 (k<128) as scalar divisor and dividend",
     bounds_thorough: "D1 Dense(S8,4)xDense(S8,4) (all APIs, 4 sign pairs) + Dense(S8,5)xDense(S8,3) (core forms); D2 as quick; D3 Runs(S8,3,12)xRuns(S8,2,8); D4; D5; D6; D7 lengths <= 48 / <= 24; D8 with lengths up to 20; D9 also 2100/1040, 4099/2, 2050/2049",
     hang_secs: 120,
     probes: Some(probes),
@@ -719,6 +719,68 @@ fn body(ctx: &mut Ctx) {
         let a: Vec<Op> = alpha::dense(&alpha::SIGMA16, 3).iter().map(|d| mk(d)).collect();
         let b: Vec<Op> = alpha::dense(&alpha::SIGMA16, 2).iter().map(|d| mk(d)).collect();
         product(ctx, "D10", &a, &b, false);
+    }
+    // D6b: every 2^k-1, 2^k, 2^k+1 (k < 128) as u128 / i128 scalar divisor and dividend
+    if ctx.space("D6b") {
+        let mut bigs: Vec<Vec<u64>> = alpha::dense(&alpha::SIGMA5, 3);
+        bigs.push(alpha::lcg_digits(5, 1));
+        bigs.push(vec![alpha::M; 4]);
+        for (i, d) in bigs.iter().enumerate() {
+            if !ctx.mine(i as u64) {
+                continue;
+            }
+            let b = mk(d);
+            let bi = BigInt::from(b.u.clone());
+            for k in 0..128u32 {
+                ctx.inner(k as u64);
+                for t in [(1u128 << k) - 1, 1u128 << k, (1u128 << k).wrapping_add(1)] {
+                    ctx.case();
+                    let tn = Nat::from_u128(t);
+                    let args = || vec![format!("big={}", b.n.to_hex()), format!("s={:x}", t)];
+                    if t != 0 {
+                        ctx.nontrivial(1);
+                        let (q, r) = b.n.divrem(&tn);
+                        let x = call(ctx, || &b.u / t);
+                        expect_nat(ctx, "BigUint &a/u128", &args, x, &q);
+                        let x = call(ctx, || &b.u % t);
+                        expect_nat(ctx, "BigUint &a%u128", &args, x, &r);
+                        let x = call(ctx, || {
+                            let mut y = b.u.clone();
+                            y /= t;
+                            y
+                        });
+                        expect_nat(ctx, "BigUint a/=u128", &args, x, &q);
+                        let x = call(ctx, || {
+                            let mut y = b.u.clone();
+                            y %= t;
+                            y
+                        });
+                        expect_nat(ctx, "BigUint a%=u128", &args, x, &r);
+                        if let Ok(ti) = i128::try_from(t) {
+                            // truncating convention: (-a) / (-t) = q, (-a) % (-t) = -r
+                            let x = call(ctx, || -&bi / -ti);
+                            expect_int(ctx, "BigInt -a/-i128", &args, x, &Int::from_nat(q.clone()));
+                            let x = call(ctx, || -&bi % -ti);
+                            expect_int(ctx, "BigInt -a%-i128", &args, x, &Int::new(true, r.clone()));
+                        }
+                        if let Ok(t64) = u64::try_from(t) {
+                            let x = call(ctx, || b.u.clone() / t64);
+                            expect_nat(ctx, "BigUint a/u64", &args, x, &q);
+                            let x = call(ctx, || &b.u % t64);
+                            expect_nat(ctx, "BigUint &a%u64", &args, x, &r);
+                        }
+                    }
+                    if !b.n.is_zero() {
+                        let (q, r) = tn.divrem(&b.n);
+                        let x = call(ctx, || t / &b.u);
+                        expect_nat(ctx, "BigUint u128/&a", &args, x, &q);
+                        let x = call(ctx, || t % &b.u);
+                        expect_nat(ctx, "BigUint u128%&a", &args, x, &r);
+                    }
+                }
+            }
+            ctx.sample(|| format!("big={} with every 2^k-1, 2^k, 2^k+1 (k<128) as u128 / i128 / u64 scalar on either side", b.n.to_hex()));
+        }
     }
     // D9: long operands -- quotients and divisors of more than a thousand digits
     if ctx.space("D9") {
